@@ -465,7 +465,7 @@ theorem C16_getattr_writer (s : BB) (c : Nat) (name : String) (v : Val) (cl : Cl
       (s.push ⟨loc, c, if v.isPrimitive then .read else .accessed, none, some v⟩).stream := by
   simp only [BB.canWrite, Bool.or_eq_true, decide_eq_true_eq] at hw
   have hw' : ¬(¬absNameS cl.ns name ∈ cl.write ∧ ¬absNameS cl.ns name ∈ cl.excl) := fun ⟨a, b⟩ => hw.elim a b
-  cases hp : v.isPrimitive <;> simp [BB.getattr, h, hrd, hw', hr, hs, hp]
+  cases hp : v.isPrimitive <;> simp [BB.getattr, h, hrd, hw', hw, hr, hs, hp]
 
 theorem C16_unset_record (s : BB) (c : Nat) (name : String) (cl : Client) (loc : String)
     (h : s.client? c = some cl) (hr : AL.get (absNameS cl.ns name) cl.remap = some loc) :
@@ -500,3 +500,71 @@ theorem C16_nothing_while_disabled (s : BB) (op : BOp) (h : s.stream = none) :
     · by_cases h₃ : op = .streamClear
       · subst h₃; simp [BB.step, BB.streamClear, h]
       · exact (step_pushes s op (fun n hn => h₁ ⟨n, hn⟩) h₂ h₃).none h
+
+/-! ### non-vacuity -/
+
+namespace C16
+
+/-- a decidable view of a record: location, client, type and (integer) values -/
+structure Rec where
+  key : List Char
+  client : Nat
+  typ : ActType
+  prev : Option Int
+  cur : Option Int
+deriving DecidableEq
+
+def Item.view (it : Item) : Rec :=
+  let iv : Option Val → Option Int := fun o => match o with | some (.int n) => some n | _ => none
+  ⟨it.key.toList, it.client, it.typ, iv it.prev, iv it.cur⟩
+
+def view (s : BB) : Option (Nat × List Rec) :=
+  s.stream.map (fun p => (p.1, p.2.map Item.view))
+
+def demo (n : Nat) : List BOp :=
+  [.new "ns", .register 0 "k" (some .write) false none, .streamOn n,
+   .setattr 0 "k" (.int 1), .setattr 0 "k" (.int 2), .setattr 0 "k" (.int 3), .setattr 0 "k" (.int 4)]
+
+end C16
+
+/-- size 2, four writes: exactly the two most recent records are retained, in order -/
+example : view (BB.runOps (demo 2)) =
+    some (2, [⟨"/ns/k".toList, 0, .write, some 2, some 3⟩, ⟨"/ns/k".toList, 0, .write, some 3, some 4⟩]) := by
+  decide
+
+/-- size 5: all four records, the first one INITIALISED -/
+example : view (BB.runOps (demo 5)) =
+    some (5, [⟨"/ns/k".toList, 0, .initialised, none, some 1⟩, ⟨"/ns/k".toList, 0, .write, some 1, some 2⟩,
+              ⟨"/ns/k".toList, 0, .write, some 2, some 3⟩, ⟨"/ns/k".toList, 0, .write, some 3, some 4⟩]) := by
+  decide
+
+/-- a size-0 stream stays empty -/
+example : view (BB.runOps (demo 0)) = some (0, []) := by decide
+
+/-- the same history without enabling the stream records nothing -/
+example : view (BB.runOps ((demo 2).filter (fun op => match op with | .streamOn _ => false | _ => true))) = none := by
+  decide
+
+namespace C16
+def demo2 : List BOp :=
+  [.new "ns", .register 0 "k" (some .write) false none, .register 0 "r" (some .read) false none, .streamOn 10,
+   .setattr 0 "zz" (.int 1), .getattr 0 "r", .getattr 0 "zz", .setattr 0 "k" (.int 1), .set 0 "k" (.int 2) false,
+   .getattr 0 "k", .setattr 0 "k" (.obj []), .getattr 0 "k", .unset 0 "k"]
+end C16
+
+/-- one record per access, every documented outcome type, in order -/
+example : view (BB.runOps demo2) = some (10,
+    [⟨"/ns/zz".toList, 0, .accessDenied, none, none⟩, ⟨"/ns/r".toList, 0, .noKey, none, none⟩,
+     ⟨"/ns/zz".toList, 0, .accessDenied, none, none⟩, ⟨"/ns/k".toList, 0, .initialised, none, some 1⟩,
+     ⟨"/ns/k".toList, 0, .noOverwrite, none, some 1⟩, ⟨"/ns/k".toList, 0, .read, none, some 1⟩,
+     ⟨"/ns/k".toList, 0, .write, some 1, none⟩, ⟨"/ns/k".toList, 0, .accessed, none, none⟩,
+     ⟨"/ns/k".toList, 0, .unset, none, none⟩]) := by
+  decide
+
+/-- the hypotheses of `C16_setattr_write` / `C16_getattr_writer` / `C16_set_no_overwrite` hold in a reachable state
+    whose stream is enabled and full -/
+example : ∃ cl loc old, (BB.runOps (demo 2)).client? 0 = some cl ∧
+    BB.canWrite cl (absNameS cl.ns "k") = true ∧ absNameS cl.ns "k" ∉ cl.read ∧
+    AL.get (absNameS cl.ns "k") cl.remap = some loc ∧ AL.get loc (BB.runOps (demo 2)).storage = some old ∧
+    (BB.runOps (demo 2)).stream.isSome = true :=
+  ⟨_, _, _, rfl, by decide, by decide, rfl, rfl, by decide⟩
